@@ -79,6 +79,85 @@ def attn_vc(kind, T, D, Dv):
                            "float arithmetic treated as real arithmetic (0 * finite = 0; inf/NaN replacement values are outside the claim)", "sequence dimension 0, un-batched query (shapes bounded)"])
 
 
+def attn_p_vc():
+    """P rung: sequence length T, key size D and value size Dv SYMBOLIC (dot-product attention, sequence dimension 0, un-batched).
+    The weighted sum and the softmax have the assumed partial-sum contracts of vf/pyvc/symtensor.py. For a skolem coordinate d0 and
+    ANY bounds lo <= every kept value <= hi at that coordinate:  lo <= out[d0] <= hi  - by the induction
+    lo * W(j) <= S(j) <= hi * W(j) over the sequence index (base / step obligations), W(T) = 1 because a position is kept."""
+    import pydrobert.torch._attn as A
+    from vf.pyvc import symtensor as stn
+
+    T, D, DV, D0, J0, T0 = z3.Ints("T D Dv d0 j0 t_kept")
+    LO, HI, SCALE = z3.Reals("lo hi scale")
+    Q = z3.Function("q", z3.IntSort(), z3.RealSort())
+    K = z3.Function("k", z3.IntSort(), z3.IntSort(), z3.RealSort())
+    V = z3.Function("v", z3.IntSort(), z3.IntSort(), z3.RealSort())
+    KEEP = z3.Function("keep", z3.IntSort(), z3.BoolSort())
+    t_ = z3.Int("t_q")
+    bounded_at = lambda t: z3.Implies(z3.And(0 <= t, t < T, KEEP(t)), z3.And(LO <= V(t, D0), V(t, D0) <= HI))
+
+    def thunk(I):
+        I.stubs.update(stn.stubs())
+
+        def bshapes(I2, a, k):  # broadcast_shapes over symbolic extents: right-aligned, extents equal or 1
+            shapes = [tuple(x) for x in a]
+            rank = max(len(x) for x in shapes)
+            out = []
+            for i in range(rank):
+                dims = [x[i - (rank - len(x))] for x in shapes if i - (rank - len(x)) >= 0]
+                big = [x for x in dims if not (isinstance(x, int) and x == 1)]
+                pick = big[0] if big else 1
+                for x in big[1:]:
+                    if not stn.dim_eq(x, pick):
+                        raise ip.PyRaise("RuntimeError", "shapes do not broadcast")
+                out.append(pick)
+            return tuple(out)
+
+        I.contracts["pydrobert.torch._compat.broadcast_shapes"] = bshapes
+        I.stubs["torch.functional.broadcast_shapes"] = lambda I2, *shapes: bshapes(I2, shapes, {})
+        obj = ip.SObj(A.DotProductSoftAttention, {"query_size": D, "key_size": D, "dim": 0, "scale_factor": SCALE}, "attn")
+        q = stn.ST((D,), lambda d: Q(ip.to_z3(d)), "float")
+        k = stn.ST((T, D), lambda t, d: K(ip.to_z3(t), ip.to_z3(d)), "float")
+        v = stn.ST((T, DV), lambda t, d: V(ip.to_z3(t), ip.to_z3(d)), "float")
+        mask = stn.ST((T,), lambda t: KEEP(ip.to_z3(t)), "bool")
+        out = I.call(I.getattr(obj, "forward"), [q, k, v, mask], {})
+        sm = I.ex.ghost["softmaxes"][-1]
+        ws = [x for x in I.ex.ghost["sums"] if x.get("kind") == "sum"][-1]  # the weighted sum over the sequence
+        S = lambda j: ws["S"](D0, j)
+        W = sm["W"]
+        I.ex.oblige("attention.sums_over_the_sequence", z3.And(ws["T"] == T, sm["n"] == T))
+        # the weights are zero exactly at masked positions' -inf scores: instance at j0; kept position t_kept makes the weights sum to one
+        inv = lambda j: z3.Implies(z3.And(0 <= j, j <= T), z3.And(LO * W(j) <= S(j), S(j) <= HI * W(j)))
+        for x in (ws["base"](D0), ws["step"](D0, J0), sm["weight"](J0), sm["wstep"](J0), sm["total_if_finite_at"](T0), bounded_at(J0)):
+            I.ex.instance(x)
+        I.ex.oblige("softmax.masked_scores_are_minus_infinity", z3.Implies(z3.And(0 <= J0, J0 < T), sm["ninf"](J0) == z3.Not(KEEP(J0))))
+        I.ex.oblige("convex.base", inv(z3.IntVal(0)))
+        I.ex.oblige("convex.step", z3.Implies(z3.And(0 <= J0, J0 < T, inv(J0)), inv(J0 + 1)))
+        I.ex.assume(z3.ForAll([t_], inv(t_)))
+        I.ex.instance(inv(T))
+        I.ex.oblige("softmax.weights_sum_to_one", W(T) == 1)
+        return out
+
+    def post(p):
+        if not api.returns(p) or not hasattr(p.value, "elem"):
+            return False
+        o = ip.to_z3(p.value.elem(D0))
+        return [("result_shape", z3.And(z3.BoolVal(len(p.value.shape) == 1), ip.to_z3(p.value.shape[0]) == DV)),
+                ("output_between_the_bounds_of_the_kept_values", z3.And(LO <= o, o <= HI))]
+
+    pre = [T >= 1, D >= 0, DV >= 1, 0 <= D0, D0 < DV, 0 <= T0, T0 < T, KEEP(T0), z3.ForAll([t_], bounded_at(t_))]
+    return VC("C20.P.convex", "DotProductSoftAttention.forward[symbolic T, D, Dv]", M, "GlobalSoftAttention.forward", thunk, pre=pre, posts=[("masked_convex_combination", post)],
+              inputs={"T": T, "D": D, "Dv": DV}, timeout_ms=30000,
+              assumptions=["sum over a symbolic extent = partial sums (assumed contract); softmax over a symbolic extent: weights >= 0, 0 at -inf scores, partial sums reaching 1 when some score is finite (assumed contract)",
+                           "the induction over the sequence index is applied outside the solver (base and step are obligations)",
+                           "dot-product attention, sequence dimension 0, un-batched query; float arithmetic treated as real arithmetic; tensors as index functions (vf/pyvc/symtensor.py)",
+                           "lo / hi: ANY lower / upper bound of the kept values of the coordinate (hence also their minimum / maximum)"])
+
+
+def p_vcs(ctx):
+    return [attn_p_vc()]
+
+
 def vcs(ctx):
     out = []
     for kind in ("dot", "general"):
